@@ -4,5 +4,6 @@ NEXT DNext
 CONSTANTS
   MaxLen = 4
   EvalAlg = "persum"
+  Extra = FALSE
   AlgFams = {"Nasa", "Nasa9", "Shomate"}
 CHECK_DEADLOCK FALSE
